@@ -8,6 +8,7 @@ import (
 	"math/rand"
 	"os"
 	"path/filepath"
+	"sort"
 	"strings"
 
 	"github.com/meshplus/bitxhub-kit/storage"
@@ -89,6 +90,7 @@ type kvRun struct {
 	// non-journaled Add over an existing value: lastAddOver[key] = heights where that happened
 	addOver map[string][]uint64
 	minH    uint64
+	readsAt map[uint64]map[string]string // (C12) height -> what the store read right after that commit
 }
 
 func (kr *kvRun) violation(sig, detail string) { kr.viols = append(kr.viols, poolViol{sig, detail}) }
@@ -215,6 +217,59 @@ func (kr *kvRun) check(full bool, ctx string) {
 	}
 }
 
+// recordReads (C12): what a cache-less ledger over the store reads, found-flag included, for every key
+// and account field right after the commit of the current height - the statement's "what it was when that
+// block was committed", taken from the implementation itself and therefore independent of how it
+// represents empty values.
+func (kr *kvRun) recordReads() {
+	if kr.prop != "C12" {
+		return
+	}
+	if kr.readsAt == nil {
+		kr.readsAt = map[uint64]map[string]string{}
+	}
+	kr.readsAt[kr.h] = kr.readAll()
+	delete(kr.readsAt, kr.h-12)
+}
+
+func (kr *kvRun) readAll() map[string]string {
+	kr.view.Clear()
+	out := map[string]string{}
+	for a := 0; a < 3; a++ {
+		addr := kvAddr(a)
+		for _, k := range kvKeys {
+			ok, v := kr.view.GetState(addr, []byte(k))
+			out[fmt.Sprintf("account %d key %q", a, k)] = fmt.Sprintf("(%v,%s)", ok, show(v))
+		}
+		out[fmt.Sprintf("account %d balance", a)] = kr.view.GetBalance(addr).String()
+		out[fmt.Sprintf("account %d nonce", a)] = fmt.Sprint(kr.view.GetNonce(addr))
+		out[fmt.Sprintf("account %d code", a)] = show(kr.view.GetCode(addr))
+	}
+	kr.view.Clear()
+	return out
+}
+
+// compareReads (C12): after a rollback to t every read gives what it gave when block t was committed.
+func (kr *kvRun) compareReads(from, t uint64) {
+	want, ok := kr.readsAt[t]
+	if !ok {
+		return
+	}
+	got := kr.readAll()
+	kr.stats["obs_rollback_read_comparisons"] += int64(len(got))
+	var ks []string
+	for k := range want {
+		ks = append(ks, k)
+	}
+	sort.Strings(ks)
+	for _, k := range ks {
+		if got[k] != want[k] {
+			kr.violation("rollback:read-differs-from-commit-time", fmt.Sprintf("after rollback %d->%d %s reads %s, right after the commit of block %d it read %s", from, t, k, got[k], t, want[k]))
+			return
+		}
+	}
+}
+
 // cacheVsStore: right after a commit nothing is dirty, so what the running ledger answers (from its
 // account cache) and what a cache-less ledger over the same store answers must be the same thing,
 // found-flag included - "no matter whether that value currently lives in the cache or the database".
@@ -330,6 +385,7 @@ func (kr *kvRun) apply(op kvOp) {
 			kr.cacheVsStore(fmt.Sprintf("after commit of block %d", kr.h))
 		}
 		kr.byH[kr.h] = kr.m.Clone()
+		kr.recordReads()
 		kr.rootAt[kr.h] = root.String()
 		kr.blkOps[kr.h] = kr.curOps
 		kr.curOps = nil
@@ -416,6 +472,7 @@ func (kr *kvRun) rollback(t uint64) {
 	if kr.sl.Version() != t {
 		kr.violation("rollback:version", fmt.Sprintf("after rollback to %d the state ledger reports version %d", t, kr.sl.Version()))
 	}
+	kr.compareReads(oldH, t)
 	// root chain: re-execute the ops of block t+1 and require the recorded root
 	if ops, ok := kr.blkOps[t+1]; ok && t+1 <= oldH && kr.rng.Intn(2) == 0 {
 		want := kr.rootAt[t+1]
@@ -433,6 +490,7 @@ func (kr *kvRun) rollback(t uint64) {
 			kr.violation("commit:error", err.Error())
 		}
 		kr.byH[kr.h] = kr.m.Clone()
+		kr.recordReads()
 		kr.stats["reexecuted_blocks"]++
 		if root.String() != want {
 			kr.violation("rollback:root-chain", fmt.Sprintf("re-executing block %d after rollback %d->%d gave state root %s, originally %s", t+1, oldH, t, root.String(), want))
